@@ -4,6 +4,7 @@ from vlib import *
 from pipeline import *
 
 PID = "C10"
+EXTRA_VALIDATED = []     # runs validated by trace specs inside helper sections
 
 
 def run(tier, seed):
@@ -35,6 +36,7 @@ def run(tier, seed):
     reps.append(rt2)
     mc.append(ts2)
     validated += validated2
+    validated += sum(EXTRA_VALIDATED)
     nviol, _ = v.finish()
     cov = std_cov(st + mc + [g], reps, {
         "rule": "one case = one complete behaviour of the exchange specification (configuration + server reaction per request) "
@@ -75,6 +77,7 @@ def unreal2_part(tier, seed, w, v, lay, tp, mc):
     mc.append(behaviours("MC_Unreal2.tla", cfg_for(tier, "Gen_Unreal2.cfg"), b, PID.lower() + "_genu"))
     r = vhr(["unreal2-behaviours", "--layouts", lay, "--in", b, "--only", PID], 4 if quick else 40, seed, tier, name=PID.lower() + "u")
     v.add_report(r, "unreal2 behaviours")
-    rt, _, ts = unreal2_trace(PID, tier, seed, w, v, lay)
+    rt, nval, ts = unreal2_trace(PID, tier, seed, w, v, lay)
     mc.append(ts)
+    EXTRA_VALIDATED.append(nval)
     return [r, rt]
